@@ -65,61 +65,28 @@ func main() {
 		if rel != "." {
 			path = modPath + "/" + filepath.ToSlash(rel)
 		}
-		info := &types.Info{Uses: map[*ast.Ident]types.Object{}, Defs: map[*ast.Ident]types.Object{}, Selections: map[*ast.SelectorExpr]*types.Selection{}}
+		info := &types.Info{Uses: map[*ast.Ident]types.Object{}, Defs: map[*ast.Ident]types.Object{}, Selections: map[*ast.SelectorExpr]*types.Selection{},
+			Types: map[ast.Expr]types.TypeAndValue{}, Implicits: map[ast.Node]types.Object{}}
 		conf := types.Config{Importer: imp, Error: func(error) {}}
 		pkg, _ := conf.Check(path, fset, files, info)
 		pkgs = append(pkgs, &pkgInfo{path, files, info, pkg})
 	}
 
 	short := func(p string) string { return strings.TrimPrefix(strings.TrimPrefix(p, modPath), "/") }
-	var mutated, methodCalled, goFuncs, chanMakes, polyAccess, retained, paramWrites, paramAppends []string
+	var goFuncs, chanMakes, polyAccess, retained, paramWrites, paramAppends []string
+	// sync_globals_mutated / sync_globals_method_called: interprocedural may-write analysis (see below)
+	mutated, methodCalled := mayWriteAnalysis(fset, pkgs)
 	locksFirst, defersUnlock := false, false
 	goCloseLast := true
 
 	for _, p := range pkgs {
-		isGlobal := func(id *ast.Ident) (string, bool) {
-			obj := p.info.Uses[id]
-			if v, ok := obj.(*types.Var); ok && v.Pkg() == p.pkg && v.Parent() == p.pkg.Scope() {
-				n := short(p.path)
-				if n == "" {
-					n = "barcode"
-				}
-				return n + "." + v.Name(), true
-			}
-			return "", false
-		}
-		rootIdent := func(e ast.Expr) *ast.Ident {
-			for {
-				switch x := e.(type) {
-				case *ast.Ident:
-					return x
-				case *ast.SelectorExpr:
-					e = x.X
-				case *ast.IndexExpr:
-					e = x.X
-				case *ast.StarExpr:
-					e = x.X
-				case *ast.ParenExpr:
-					e = x.X
-				case *ast.SliceExpr:
-					e = x.X
-				default:
-					return nil
-				}
-			}
-		}
 		for _, f := range p.files {
 			for _, decl := range f.Decls {
 				fd, ok := decl.(*ast.FuncDecl)
 				if !ok || fd.Body == nil {
 					continue
 				}
-				fname := fd.Name.Name
-				if fd.Recv != nil {
-					fname = "(method)" + fname
-				}
 				qual := short(p.path) + "." + fd.Name.Name
-				inInit := fd.Name.Name == "init" && fd.Recv == nil
 				if p.path == modPath+"/utils" && fd.Name.Name == "getPolynomial" {
 					if len(fd.Body.List) >= 2 {
 						if es, ok := fd.Body.List[0].(*ast.ExprStmt); ok {
@@ -162,50 +129,11 @@ func main() {
 								}
 							}
 						}
-						if inInit {
-							break
-						}
-						for _, l := range x.Lhs {
-							if id := rootIdent(l); id != nil {
-								if g, ok := isGlobal(id); ok {
-									mutated = append(mutated, g)
-								}
-							}
-						}
-					case *ast.IncDecStmt:
-						if id := rootIdent(x.X); id != nil && !inInit {
-							if g, ok := isGlobal(id); ok {
-								mutated = append(mutated, g)
-							}
-						}
-					case *ast.UnaryExpr:
-						if x.Op == token.AND && !inInit {
-							if id := rootIdent(x.X); id != nil {
-								if g, ok := isGlobal(id); ok {
-									mutated = append(mutated, g+"(&)")
-								}
-							}
-						}
 					case *ast.CallExpr:
 						// append(param, ...) may write into the caller's backing array beyond len
 						if id, ok := x.Fun.(*ast.Ident); ok && id.Name == "append" && len(x.Args) >= 1 {
 							if aid, ok := x.Args[0].(*ast.Ident); ok && sliceParams[p.info.Uses[aid]] {
 								paramAppends = append(paramAppends, qual)
-							}
-						}
-						if sel, ok := x.Fun.(*ast.SelectorExpr); ok && !inInit {
-							if s := p.info.Selections[sel]; s != nil && s.Kind() == types.MethodVal {
-								if id := rootIdent(sel.X); id != nil {
-									if g, ok := isGlobal(id); ok {
-										// a method call through a package-level variable: may mutate what it points to
-										if fn, ok := s.Obj().(*types.Func); ok {
-											sig := fn.Type().(*types.Signature)
-											if _, ptr := sig.Recv().Type().(*types.Pointer); ptr {
-												methodCalled = append(methodCalled, g)
-											}
-										}
-									}
-								}
 							}
 						}
 						if id, ok := x.Fun.(*ast.Ident); ok && id.Name == "make" && len(x.Args) >= 1 {
@@ -267,8 +195,8 @@ func main() {
 	fmt.Fprintf(&sb, "Definition sync_getpoly_locks_first : bool := %v.\n", locksFirst)
 	fmt.Fprintf(&sb, "Definition sync_getpoly_defers_unlock : bool := %v.\n", defersUnlock)
 	fmt.Fprintf(&sb, "(* functions that mention the cache field 'polynomes' *)\nDefinition sync_polynomes_accessed_in : list string := %s.\n", coqStrs(uniq(polyAccess)))
-	fmt.Fprintf(&sb, "(* package-level variables assigned, incremented or address-taken outside init() *)\nDefinition sync_globals_mutated : list string := %s.\n", coqStrs(uniq(mutated)))
-	fmt.Fprintf(&sb, "(* package-level variables through which a pointer-receiver method is called outside init() *)\nDefinition sync_globals_method_called : list string := %s.\n", coqStrs(uniq(methodCalled)))
+	fmt.Fprintf(&sb, "(* package-level variables that may be MUTATED outside init(): assigned/incremented directly or through any path, written through a local alias or a pointer returned by a library function, passed (itself, an element, a sub-slice, its address) to a parameter the callee may write through (interprocedural may-write analysis; calls outside the library, through function values and interface methods write through every pointer/slice/map argument), or escaping untracked (suffix (&)) *)\nDefinition sync_globals_mutated : list string := %s.\n", coqStrs(uniq(mutated)))
+	fmt.Fprintf(&sb, "(* package-level variables through which (directly or via an alias) a library method is called outside init() that may WRITE through its receiver (transitively; taking a mutex counts) *)\nDefinition sync_globals_method_called : list string := %s.\n", coqStrs(uniq(methodCalled)))
 	sort.Strings(goFuncs)
 	fmt.Fprintf(&sb, "(* one entry per go statement: the function containing it *)\nDefinition sync_go_statements : list string := %s.\n", coqStrs(goFuncs))
 	sort.Strings(chanMakes)
@@ -304,4 +232,1557 @@ func exprString(e ast.Expr) string {
 		return exprString(x.Fun) + "(" + strings.Join(a, ",") + ")"
 	}
 	return "?"
+}
+
+// ---------------------------------------------------------------------------
+// Interprocedural, flow-insensitive may-write analysis
+//
+// Abstract memory roots:
+//   G name      a package-level variable and everything reachable from it
+//   P f#i       what parameter i of library function f (receiver = 0) points to directly
+//   Q f#i[.fld] everything reachable below that (deeper levels of indirection), optionally
+//               restricted to what is reached through field fld of the direct referent
+//   L v         the storage of the local variable v (only while analysing its function)
+// An abstract value is a pair (d, i): the roots the pointers contained in the value may
+// point to DIRECTLY (d) and the roots reachable through further indirections (i). The
+// distinction keeps "a fresh slice holding pointers into a table" apart from "the table".
+// Struct fields are handled field-based (one abstract cell per declared field, FA),
+// package-level variables may alias each other through initialisers/assignments (GA),
+// and PA binds every parameter to the union of the actual arguments of all call sites
+// (used to resolve parameters that were stored into fields).
+// ---------------------------------------------------------------------------
+
+type root struct {
+	k byte   // 'G', 'P', 'Q', 'L'
+	s string // G: printed name; P/Q: function key; L: variable key
+	i int    // P/Q: parameter index
+	f string // Q only: "" = anything below the parameter's referent; else the key of a struct
+	//          field: what that field of the referent points to and everything below it
+}
+
+type rset map[root]struct{}
+
+type val struct{ d, i rset }
+
+const (
+	kindD = 1 // direct write (assignment, builtin, unknown callee)
+	kindM = 2 // write by a library method through its receiver
+)
+
+type wkey struct {
+	param, level int
+	field        string // level 2 only: restriction to one field of the referent ("" = any)
+}
+
+type fnInfo struct {
+	key      string
+	qual     string
+	decl     *ast.FuncDecl
+	p        *pkgInfo
+	params   []types.Object // receiver first (if any); nil entries for unnamed/blank
+	hasRecv  bool
+	variadic bool
+	results  []types.Object // named results or nil entries
+	W        map[wkey]uint8
+	R        []*val
+	exempt   bool // init()
+}
+
+type analysis struct {
+	fset    *token.FileSet
+	fns     map[string]*fnInfo
+	order   []*fnInfo
+	local   map[types.Object]*val
+	lobj    map[string]types.Object
+	derived map[types.Object]map[types.Object]bool
+	FA      map[string]*val
+	GA      map[string]*val
+	PA      map[root]*val
+	changed bool
+	mutated map[string]string // name -> first position (for -debug)
+	mcalled map[string]string
+	debug   bool
+}
+
+type ctx struct {
+	a      *analysis
+	p      *pkgInfo
+	fn     *fnInfo // nil inside package-level initialisers
+	exempt bool
+}
+
+func (s rset) add(r root) bool {
+	if _, ok := s[r]; ok {
+		return false
+	}
+	s[r] = struct{}{}
+	return true
+}
+
+func newVal() val { return val{rset{}, rset{}} }
+
+func (v val) empty() bool { return len(v.d) == 0 && len(v.i) == 0 }
+
+func (v val) union(w val) val {
+	r := newVal()
+	for _, x := range []val{v, w} {
+		for k := range x.d {
+			r.d[k] = struct{}{}
+		}
+		for k := range x.i {
+			r.i[k] = struct{}{}
+		}
+	}
+	return r
+}
+
+// all returns d ∪ i
+func (v val) all() rset {
+	r := rset{}
+	for k := range v.d {
+		r[k] = struct{}{}
+	}
+	for k := range v.i {
+		r[k] = struct{}{}
+	}
+	return r
+}
+
+// merge adds w into the stored value *dst and records growth.
+func (a *analysis) merge(dst *val, w val) {
+	if dst.d == nil {
+		dst.d, dst.i = rset{}, rset{}
+	}
+	for k := range w.d {
+		if dst.d.add(k) {
+			a.changed = true
+		}
+	}
+	for k := range w.i {
+		if dst.i.add(k) {
+			a.changed = true
+		}
+	}
+}
+
+func hasPtr(t types.Type) bool { return hasPtrRec(t, 0) }
+
+func hasPtrRec(t types.Type, depth int) bool {
+	if t == nil || depth > 20 {
+		return true
+	}
+	switch u := t.Underlying().(type) {
+	case *types.Basic:
+		return u.Kind() == types.UnsafePointer || u.Kind() == types.UntypedNil
+	case *types.Pointer, *types.Slice, *types.Map, *types.Chan, *types.Signature, *types.Interface:
+		return true
+	case *types.Struct:
+		for i := 0; i < u.NumFields(); i++ {
+			if hasPtrRec(u.Field(i).Type(), depth+1) {
+				return true
+			}
+		}
+		return false
+	case *types.Array:
+		return hasPtrRec(u.Elem(), depth+1)
+	case *types.Tuple:
+		for i := 0; i < u.Len(); i++ {
+			if hasPtrRec(u.At(i).Type(), depth+1) {
+				return true
+			}
+		}
+		return false
+	}
+	return true
+}
+
+// written-through argument types of unknown callees: pointer, slice, map
+func isPSM(t types.Type) bool {
+	if t == nil {
+		return false
+	}
+	switch t.Underlying().(type) {
+	case *types.Pointer, *types.Slice, *types.Map:
+		return true
+	}
+	return false
+}
+
+func inLibrary(pkg *types.Package) bool {
+	return pkg != nil && (pkg.Path() == modPath || strings.HasPrefix(pkg.Path(), modPath+"/"))
+}
+
+func shortPkg(path string) string {
+	n := strings.TrimPrefix(strings.TrimPrefix(path, modPath), "/")
+	if n == "" {
+		n = "barcode"
+	}
+	return n
+}
+
+func (a *analysis) posKey(p token.Pos) string {
+	ps := a.fset.Position(p)
+	return fmt.Sprintf("%s:%d:%d", ps.Filename, ps.Line, ps.Column)
+}
+
+// globalName returns the printed name if obj is a package-level variable of the library.
+func globalName(obj types.Object) (string, bool) {
+	v, ok := obj.(*types.Var)
+	if !ok || v.IsField() || v.Pkg() == nil || !inLibrary(v.Pkg()) || v.Parent() != v.Pkg().Scope() {
+		return "", false
+	}
+	return shortPkg(v.Pkg().Path()) + "." + v.Name(), true
+}
+
+// ---- abstract values -------------------------------------------------------
+
+func (a *analysis) lval(obj types.Object) *val {
+	v := a.local[obj]
+	if v == nil {
+		nv := newVal()
+		v = &nv
+		a.local[obj] = v
+	}
+	return v
+}
+
+func (a *analysis) lroot(obj types.Object) root {
+	k := a.posKey(obj.Pos()) + ":" + obj.Name()
+	a.lobj[k] = obj
+	return root{k: 'L', s: k}
+}
+
+// load: the roots a pointer stored IN the memory named r may point to (one dereference).
+func (a *analysis) load(r root, d, i rset) {
+	switch r.k {
+	case 'G':
+		d.add(r)
+	case 'P':
+		d.add(root{k: 'Q', s: r.s, i: r.i})
+	case 'Q':
+		d.add(r)
+	case 'L':
+		if obj := a.lobj[r.s]; obj != nil {
+			v := a.lval(obj)
+			for k := range v.d {
+				d.add(k)
+			}
+			for k := range v.i {
+				i.add(k)
+			}
+		}
+	}
+}
+
+// derefField: the value of field fk loaded through the pointer value v. The referent is either
+// a named root (then the result is named, restricted to the field for parameters) or anonymous
+// memory, whose field contents are all recorded in the field cell FA[fk]; v.i is not needed.
+func (a *analysis) derefField(v val, fk string) val {
+	r := newVal()
+	for k := range v.d {
+		if k.k == 'P' {
+			r.d.add(root{k: 'Q', s: k.s, i: k.i, f: fk})
+		} else {
+			a.load(k, r.d, r.i)
+		}
+	}
+	if fa := a.FA[fk]; fa != nil {
+		r = r.union(*fa)
+	}
+	return r
+}
+
+// closure of a root set under arbitrary further dereferences
+func (a *analysis) closure(s rset) rset {
+	res := rset{}
+	var work []root
+	for r := range s {
+		if res.add(r) {
+			work = append(work, r)
+		}
+	}
+	for len(work) > 0 {
+		r := work[len(work)-1]
+		work = work[:len(work)-1]
+		d, i := rset{}, rset{}
+		a.load(r, d, i)
+		for _, x := range []rset{d, i} {
+			for k := range x {
+				if res.add(k) {
+					work = append(work, k)
+				}
+			}
+		}
+	}
+	return res
+}
+
+// deref: the value loaded through a pointer value v.
+func (a *analysis) deref(v val) val {
+	r := newVal()
+	for k := range v.d {
+		a.load(k, r.d, r.i)
+	}
+	if len(v.i) > 0 {
+		for k := range a.closure(v.i) {
+			r.d.add(k)
+			r.i.add(k)
+		}
+	}
+	return r
+}
+
+// reachAll: every root reachable from the value at any depth >= 1.
+func (a *analysis) reachAll(v val) rset { return a.closure(v.all()) }
+
+// reachBelow: every root reachable strictly below the first level.
+func (a *analysis) reachBelow(v val) rset { return a.closure(a.deref(v).all()) }
+
+// below: like reachBelow, optionally restricted to what is reached through one field.
+func (a *analysis) below(v val, fk string) rset {
+	if fk == "" {
+		return a.reachBelow(v)
+	}
+	return a.closure(a.derefField(v, fk).all())
+}
+
+// flatten removes function-local L roots (escaping locals become anonymous memory whose
+// contents are kept in i) so that the value can be stored in a global table.
+func (a *analysis) flatten(v val) val {
+	r := newVal()
+	for k := range v.d {
+		if k.k != 'L' {
+			r.d.add(k)
+		}
+	}
+	hasL := false
+	for k := range v.d {
+		if k.k == 'L' {
+			hasL = true
+		}
+	}
+	for k := range v.i {
+		if k.k == 'L' {
+			hasL = true
+		} else {
+			r.i.add(k)
+		}
+	}
+	if hasL {
+		for k := range a.closure(v.all()) {
+			if k.k != 'L' {
+				if _, direct := r.d[k]; !direct {
+					r.i.add(k)
+				}
+			}
+		}
+	}
+	return r
+}
+
+func (c *ctx) typeOf(e ast.Expr) types.Type { return c.p.info.TypeOf(e) }
+
+func (c *ctx) objOf(id *ast.Ident) types.Object {
+	if o := c.p.info.Uses[id]; o != nil {
+		return o
+	}
+	return c.p.info.Defs[id]
+}
+
+func (c *ctx) paramIndex(obj types.Object) int {
+	if c.fn == nil {
+		return -1
+	}
+	for i, p := range c.fn.params {
+		if p == obj && p != nil {
+			return i
+		}
+	}
+	return -1
+}
+
+// value of a variable (as an rvalue)
+func (c *ctx) identVal(id *ast.Ident) val {
+	obj := c.objOf(id)
+	v, ok := obj.(*types.Var)
+	if !ok {
+		return newVal()
+	}
+	if g, ok := globalName(v); ok {
+		r := newVal()
+		r.d.add(root{k: 'G', s: g})
+		if ga := c.a.GA[g]; ga != nil {
+			for k := range ga.all() {
+				r.i.add(k)
+			}
+		}
+		return r
+	}
+	if v.Pkg() == nil || !inLibrary(v.Pkg()) || v.IsField() {
+		return newVal() // variables of other packages are not tracked
+	}
+	r := newVal().union(*c.a.lval(v))
+	if i := c.paramIndex(v); i >= 0 {
+		r.d.add(root{k: 'P', s: c.fn.key, i: i})
+		r.i.add(root{k: 'Q', s: c.fn.key, i: i})
+	}
+	return r
+}
+
+func (c *ctx) fieldKey(f *types.Var) string { return c.a.posKey(f.Pos()) }
+
+func (c *ctx) fieldVal(f *types.Var) val {
+	if v := c.a.FA[c.fieldKey(f)]; v != nil {
+		return *v
+	}
+	return newVal()
+}
+
+func deptr(t types.Type) (types.Type, bool) {
+	if p, ok := t.Underlying().(*types.Pointer); ok {
+		return p.Elem(), true
+	}
+	return t, false
+}
+
+// value of the field selection x.<path>
+func (c *ctx) fieldPath(x ast.Expr, sel *types.Selection) val {
+	v := c.eval(x)
+	t := c.typeOf(x)
+	for _, idx := range sel.Index() {
+		var isp bool
+		t, isp = deptr(t)
+		st, ok := t.Underlying().(*types.Struct)
+		if !ok {
+			return v
+		}
+		f := st.Field(idx)
+		if isp {
+			v = c.a.derefField(v, c.fieldKey(f))
+		} else {
+			v = v.union(c.fieldVal(f))
+		}
+		t = f.Type()
+	}
+	return v
+}
+
+// eval: abstract value of an expression (no events are generated here).
+func (c *ctx) eval(e ast.Expr) val {
+	t := c.typeOf(e)
+	if t != nil && !hasPtr(t) {
+		return newVal()
+	}
+	switch x := e.(type) {
+	case *ast.ParenExpr:
+		return c.eval(x.X)
+	case *ast.Ident:
+		return c.identVal(x)
+	case *ast.SelectorExpr:
+		if sel := c.p.info.Selections[x]; sel != nil {
+			switch sel.Kind() {
+			case types.FieldVal:
+				return c.fieldPath(x.X, sel)
+			case types.MethodVal:
+				s := c.a.reachAll(c.recvArg(x, sel))
+				return val{s, s}
+			}
+			return newVal()
+		}
+		return c.identVal(x.Sel)
+	case *ast.IndexExpr:
+		xt := c.typeOf(x.X)
+		if xt == nil {
+			return newVal()
+		}
+		switch u := xt.Underlying().(type) {
+		case *types.Array:
+			return c.eval(x.X)
+		case *types.Slice, *types.Map:
+			return c.a.deref(c.eval(x.X))
+		case *types.Pointer:
+			_ = u
+			return c.a.deref(c.eval(x.X))
+		}
+		return newVal()
+	case *ast.SliceExpr:
+		if xt := c.typeOf(x.X); xt != nil {
+			if _, ok := xt.Underlying().(*types.Array); ok {
+				return c.addrOf(x.X)
+			}
+		}
+		return c.eval(x.X)
+	case *ast.StarExpr:
+		return c.a.deref(c.eval(x.X))
+	case *ast.UnaryExpr:
+		switch x.Op {
+		case token.AND:
+			return c.addrOf(x.X)
+		case token.ARROW:
+			return c.a.deref(c.eval(x.X))
+		}
+		return newVal()
+	case *ast.TypeAssertExpr:
+		return c.eval(x.X)
+	case *ast.CallExpr:
+		rs := c.evalCall(x)
+		if len(rs) > 0 {
+			return rs[0]
+		}
+		return newVal()
+	case *ast.CompositeLit:
+		return c.evalLit(x)
+	case *ast.FuncLit:
+		r := newVal()
+		for _, ret := range funcLitReturns(x) {
+			for _, re := range ret.Results {
+				for k := range c.a.reachAll(c.eval(re)) {
+					r.d.add(k)
+					r.i.add(k)
+				}
+			}
+		}
+		return r
+	}
+	return newVal()
+}
+
+func (c *ctx) evalLit(x *ast.CompositeLit) val {
+	t := c.typeOf(x)
+	if t == nil {
+		return newVal()
+	}
+	elided := false
+	if et, isp := deptr(t); isp { // elided &T inside a []*T{...} literal
+		t, elided = et, true
+	}
+	ev := newVal()
+	for _, el := range x.Elts {
+		if kv, ok := el.(*ast.KeyValueExpr); ok {
+			if _, isMap := t.Underlying().(*types.Map); isMap {
+				ev = ev.union(c.eval(kv.Key))
+			}
+			el = kv.Value
+		}
+		ev = ev.union(c.eval(el))
+	}
+	switch t.Underlying().(type) {
+	case *types.Struct, *types.Array:
+		if elided {
+			return val{rset{}, ev.all()}
+		}
+		return ev
+	}
+	return val{rset{}, ev.all()}
+}
+
+// addrOf: pointer to the storage denoted by the (addressable or composite-literal) expression.
+func (c *ctx) addrOf(e ast.Expr) val {
+	switch x := e.(type) {
+	case *ast.ParenExpr:
+		return c.addrOf(x.X)
+	case *ast.Ident:
+		return c.addrOfIdent(x)
+	case *ast.SelectorExpr:
+		sel := c.p.info.Selections[x]
+		if sel == nil {
+			return c.addrOfIdent(x.Sel)
+		}
+		if sel.Kind() != types.FieldVal {
+			return newVal()
+		}
+		t := c.typeOf(x.X)
+		var loc val
+		if _, isp := deptr(t); isp {
+			loc = c.eval(x.X)
+			t, _ = deptr(t)
+		} else {
+			loc = c.addrOf(x.X)
+		}
+		idxs := sel.Index()
+		for n, idx := range idxs {
+			st, ok := t.Underlying().(*types.Struct)
+			if !ok {
+				break
+			}
+			f := st.Field(idx)
+			fv := c.fieldVal(f)
+			if n == len(idxs)-1 {
+				r := newVal().union(loc)
+				for k := range fv.all() {
+					r.i.add(k)
+				}
+				return r
+			}
+			t = f.Type()
+			if et, isp := deptr(t); isp { // embedded pointer: hop
+				loc = c.a.derefField(loc, c.fieldKey(f))
+				t = et
+			}
+		}
+		return loc
+	case *ast.IndexExpr:
+		if xt := c.typeOf(x.X); xt != nil {
+			if _, ok := xt.Underlying().(*types.Array); ok {
+				return c.addrOf(x.X)
+			}
+		}
+		return c.eval(x.X)
+	case *ast.StarExpr:
+		return c.eval(x.X)
+	case *ast.CompositeLit:
+		return val{rset{}, c.evalLit(x).all()}
+	}
+	// not addressable (e.g. a call result used by value): a temporary
+	return val{rset{}, c.eval(e).all()}
+}
+
+func (c *ctx) addrOfIdent(id *ast.Ident) val {
+	r := newVal()
+	obj := c.objOf(id)
+	v, ok := obj.(*types.Var)
+	if !ok {
+		return r
+	}
+	if g, ok := globalName(v); ok {
+		r.d.add(root{k: 'G', s: g})
+		return r
+	}
+	if v.Pkg() == nil || !inLibrary(v.Pkg()) {
+		return r
+	}
+	r.d.add(c.a.lroot(v))
+	return r
+}
+
+func funcLitReturns(fl *ast.FuncLit) []*ast.ReturnStmt {
+	var rs []*ast.ReturnStmt
+	ast.Inspect(fl.Body, func(n ast.Node) bool {
+		switch x := n.(type) {
+		case *ast.FuncLit:
+			return false
+		case *ast.ReturnStmt:
+			rs = append(rs, x)
+		}
+		return true
+	})
+	return rs
+}
+
+// ---- calls -----------------------------------------------------------------
+
+const (
+	cConv = iota
+	cBuiltin
+	cLib
+	cExt
+	cDyn
+)
+
+type callee struct {
+	kind    int
+	name    string // builtin
+	fn      *fnInfo
+	tf      *types.Func
+	sel     *types.Selection // method call x.m(...)
+	selExpr *ast.SelectorExpr
+	iface   bool // interface method call
+}
+
+func unparen(e ast.Expr) ast.Expr {
+	for {
+		p, ok := e.(*ast.ParenExpr)
+		if !ok {
+			return e
+		}
+		e = p.X
+	}
+}
+
+func (c *ctx) funcCallee(tf *types.Func) callee {
+	if inLibrary(tf.Pkg()) {
+		if fn := c.a.fns[c.a.posKey(tf.Pos())]; fn != nil {
+			return callee{kind: cLib, fn: fn, tf: tf}
+		}
+		if c.a.debug {
+			fmt.Fprintf(os.Stderr, "UNRESOLVED library callee %s (%s)\n", tf.FullName(), c.a.posKey(tf.Pos()))
+		}
+	}
+	return callee{kind: cExt, tf: tf}
+}
+
+func (c *ctx) resolveCallee(call *ast.CallExpr) callee {
+	fun := unparen(call.Fun)
+	if tv, ok := c.p.info.Types[fun]; ok && tv.IsType() {
+		return callee{kind: cConv}
+	}
+	switch f := fun.(type) {
+	case *ast.Ident:
+		switch o := c.p.info.Uses[f].(type) {
+		case *types.Builtin:
+			return callee{kind: cBuiltin, name: o.Name()}
+		case *types.Func:
+			return c.funcCallee(o)
+		}
+	case *ast.SelectorExpr:
+		if sel := c.p.info.Selections[f]; sel != nil {
+			if sel.Kind() == types.MethodVal {
+				tf, _ := sel.Obj().(*types.Func)
+				if tf == nil {
+					return callee{kind: cDyn}
+				}
+				sig := tf.Type().(*types.Signature)
+				if sig.Recv() != nil && types.IsInterface(sig.Recv().Type()) {
+					return callee{kind: cDyn, iface: true, sel: sel, selExpr: f, tf: tf}
+				}
+				cl := c.funcCallee(tf)
+				cl.sel, cl.selExpr = sel, f
+				return cl
+			}
+			return callee{kind: cDyn}
+		}
+		if tf, ok := c.p.info.Uses[f.Sel].(*types.Func); ok {
+			return c.funcCallee(tf)
+		}
+	}
+	return callee{kind: cDyn}
+}
+
+// recvArg: the receiver value as the method gets it (pointer or copy), following embedded fields.
+func (c *ctx) recvArg(x *ast.SelectorExpr, sel *types.Selection) val {
+	tf, _ := sel.Obj().(*types.Func)
+	t := c.typeOf(x.X)
+	if t == nil || tf == nil {
+		return c.eval(x.X)
+	}
+	sig := tf.Type().(*types.Signature)
+	idxs := sel.Index()
+	if len(idxs) == 1 && types.IsInterface(t) {
+		return c.eval(x.X)
+	}
+	var loc val
+	if et, isp := deptr(t); isp {
+		loc, t = c.eval(x.X), et
+	} else {
+		loc = c.addrOf(x.X)
+	}
+	for _, idx := range idxs[:len(idxs)-1] {
+		st, ok := t.Underlying().(*types.Struct)
+		if !ok {
+			break
+		}
+		f := st.Field(idx)
+		fv := c.fieldVal(f)
+		t = f.Type()
+		if et, isp := deptr(t); isp {
+			loc, t = c.a.derefField(loc, c.fieldKey(f)), et
+		} else {
+			loc = loc.union(val{rset{}, fv.all()})
+		}
+	}
+	if types.IsInterface(t) { // method of an embedded interface
+		return c.a.deref(loc)
+	}
+	if sig.Recv() != nil {
+		if _, isp := sig.Recv().Type().(*types.Pointer); isp {
+			return loc
+		}
+	}
+	return c.a.deref(loc)
+}
+
+// libArgs: actual arguments aligned with fn.params (receiver first).
+func (c *ctx) libArgs(call *ast.CallExpr, cl callee) []val {
+	fn := cl.fn
+	as := make([]val, len(fn.params))
+	for i := range as {
+		as[i] = newVal()
+	}
+	off := 0
+	if fn.hasRecv {
+		off = 1
+		if cl.sel != nil {
+			as[0] = c.recvArg(cl.selExpr, cl.sel)
+		}
+	}
+	np := len(fn.params) - off
+	if len(call.Args) == 1 && np > 1 {
+		if inner, ok := unparen(call.Args[0]).(*ast.CallExpr); ok { // f(g()) with a multi-value g
+			rs := c.evalCall(inner)
+			for j := 0; j < np && j < len(rs); j++ {
+				as[off+j] = rs[j]
+			}
+			return as
+		}
+	}
+	for j := 0; j < np; j++ {
+		if fn.variadic && j == np-1 {
+			if call.Ellipsis.IsValid() && j < len(call.Args) {
+				as[off+j] = c.eval(call.Args[j])
+			} else {
+				s := rset{}
+				for _, ae := range call.Args[min(j, len(call.Args)):] {
+					for k := range c.eval(ae).all() {
+						s.add(k)
+					}
+				}
+				as[off+j] = val{rset{}, s}
+			}
+		} else if j < len(call.Args) {
+			as[off+j] = c.eval(call.Args[j])
+		}
+	}
+	return as
+}
+
+func (c *ctx) nResults(call *ast.CallExpr) int {
+	t := c.typeOf(call)
+	if t == nil {
+		return 0
+	}
+	if tu, ok := t.(*types.Tuple); ok {
+		return tu.Len()
+	}
+	return 1
+}
+
+func (c *ctx) resultType(call *ast.CallExpr, i int) types.Type {
+	t := c.typeOf(call)
+	if tu, ok := t.(*types.Tuple); ok {
+		return tu.At(i).Type()
+	}
+	return t
+}
+
+// evalCall: abstract values of the results of a call.
+func (c *ctx) evalCall(call *ast.CallExpr) []val {
+	n := c.nResults(call)
+	res := make([]val, n)
+	for i := range res {
+		res[i] = newVal()
+	}
+	if n == 0 {
+		return res
+	}
+	cl := c.resolveCallee(call)
+	switch cl.kind {
+	case cConv:
+		if len(call.Args) == 1 {
+			res[0] = c.eval(call.Args[0])
+		}
+	case cBuiltin:
+		if cl.name == "append" && len(call.Args) >= 1 {
+			a0 := c.eval(call.Args[0])
+			r := newVal().union(a0)
+			for j, ae := range call.Args[1:] {
+				v := c.eval(ae)
+				if call.Ellipsis.IsValid() && j == len(call.Args)-2 {
+					v = c.a.deref(v)
+				}
+				for k := range v.all() {
+					r.i.add(k)
+				}
+			}
+			res[0] = r
+		}
+	case cLib:
+		as := c.libArgs(call, cl)
+		for i := 0; i < n && i < len(cl.fn.R); i++ {
+			if !hasPtr(c.resultType(call, i)) {
+				continue
+			}
+			R := cl.fn.R[i]
+			res[i] = val{c.subst(R.d, cl.fn, as), c.subst(R.i, cl.fn, as)}
+		}
+	default: // external or dynamic callee: the results may alias anything reachable from the arguments
+		s := rset{}
+		for _, ae := range call.Args {
+			for k := range c.a.reachAll(c.eval(ae)) {
+				s.add(k)
+			}
+		}
+		if cl.sel != nil {
+			for k := range c.a.reachAll(c.recvArg(cl.selExpr, cl.sel)) {
+				s.add(k)
+			}
+		} else if cl.kind == cDyn {
+			for k := range c.a.reachAll(c.eval(call.Fun)) {
+				s.add(k)
+			}
+		}
+		for i := 0; i < n; i++ {
+			if hasPtr(c.resultType(call, i)) {
+				res[i] = val{s, s}
+			}
+		}
+	}
+	return res
+}
+
+func (c *ctx) subst(s rset, fn *fnInfo, as []val) rset {
+	r := rset{}
+	for k := range s {
+		if (k.k == 'P' || k.k == 'Q') && k.s == fn.key && k.i < len(as) {
+			if k.k == 'P' {
+				for x := range as[k.i].d {
+					r.add(x)
+				}
+			} else {
+				for x := range c.a.below(as[k.i], k.f) {
+					r.add(x)
+				}
+			}
+			continue
+		}
+		r.add(k)
+	}
+	return r
+}
+
+// External functions that only read their operands (they at most call String/Error/Format
+// methods on them). Everything else outside the library is assumed to write through every
+// pointer/slice/map argument.
+var readOnlyExternal = map[string]bool{
+	"fmt.Sprintf": true, "fmt.Sprint": true, "fmt.Sprintln": true, "fmt.Errorf": true,
+}
+
+// callEvent: the write effects of a call.
+func (c *ctx) callEvent(call *ast.CallExpr) {
+	cl := c.resolveCallee(call)
+	pos := call.Pos()
+	switch cl.kind {
+	case cConv:
+	case cBuiltin:
+		switch cl.name {
+		case "append", "delete", "clear", "close":
+			if len(call.Args) >= 1 {
+				c.writeEvent(c.eval(call.Args[0]).d, kindD, pos, cl.name)
+			}
+		case "copy":
+			if len(call.Args) == 2 {
+				pv := c.eval(call.Args[0])
+				c.writeEvent(pv.d, kindD, pos, "copy")
+				if src := c.a.deref(c.eval(call.Args[1])); !src.empty() {
+					c.store(pv, call.Args[0], false, src, pos)
+				}
+			}
+		}
+	case cLib:
+		as := c.libArgs(call, cl)
+		for wk, kind := range cl.fn.W {
+			if wk.param >= len(as) {
+				continue
+			}
+			var targets rset
+			if wk.level == 1 {
+				targets = as[wk.param].d
+			} else {
+				targets = c.a.below(as[wk.param], wk.field)
+			}
+			if cl.fn.hasRecv && wk.param == 0 && cl.sel != nil {
+				kind = kindM
+			}
+			c.writeEvent(targets, kind, pos, "call "+cl.fn.qual)
+		}
+		for j, v := range as {
+			if v.empty() {
+				continue
+			}
+			pk := root{k: 'P', s: cl.fn.key, i: j}
+			pa := c.a.PA[pk]
+			if pa == nil {
+				nv := newVal()
+				pa = &nv
+				c.a.PA[pk] = pa
+			}
+			c.a.merge(pa, c.a.flatten(v))
+		}
+	default:
+		if cl.tf != nil && readOnlyExternal[cl.tf.FullName()] {
+			break
+		}
+		if c.a.debug {
+			nm := "dynamic"
+			if cl.tf != nil {
+				nm = cl.tf.FullName()
+			}
+			for _, ae := range call.Args {
+				if isPSM(c.typeOf(ae)) {
+					fmt.Fprintf(os.Stderr, "EXTARG %s in %s %s\n", nm, c.a.fset.Position(pos), fmtVal(c.eval(ae)))
+				}
+			}
+		}
+		for _, ae := range call.Args {
+			if isPSM(c.typeOf(ae)) {
+				c.writeEvent(c.a.reachAll(c.eval(ae)), kindD, pos, "unknown/external callee")
+			}
+		}
+		if cl.kind == cExt && cl.sel != nil {
+			sig := cl.tf.Type().(*types.Signature)
+			if sig.Recv() != nil && isPSM(sig.Recv().Type()) {
+				c.writeEvent(c.a.reachAll(c.recvArg(cl.selExpr, cl.sel)), kindD, pos, "external method "+cl.tf.Name())
+			}
+		}
+	}
+}
+
+// ---- events ----------------------------------------------------------------
+
+// resolveRoots calls f for every package-level variable and (unless expandOwn) every own
+// parameter root in the set; foreign parameter roots (they arrive through struct fields) and,
+// with expandOwn, own ones are replaced by the actual arguments of all call sites (PA).
+func (c *ctx) resolveRoots(set rset, expandOwn bool, f func(r root)) {
+	seen := rset{}
+	var work []root
+	push := func(s rset) {
+		for r := range s {
+			if seen.add(r) {
+				work = append(work, r)
+			}
+		}
+	}
+	push(set)
+	for len(work) > 0 {
+		r := work[len(work)-1]
+		work = work[:len(work)-1]
+		switch r.k {
+		case 'G':
+			f(r)
+		case 'P', 'Q':
+			if !expandOwn && c.fn != nil && r.s == c.fn.key {
+				f(r)
+				continue
+			}
+			pa := c.a.PA[root{k: 'P', s: r.s, i: r.i}]
+			if pa == nil {
+				continue
+			}
+			if r.k == 'P' {
+				push(pa.d)
+			} else {
+				push(c.a.below(*pa, r.f))
+			}
+		}
+	}
+}
+
+func (c *ctx) report(m map[string]string, name string, pos token.Pos, why string) {
+	if _, ok := m[name]; !ok {
+		m[name] = c.a.fset.Position(pos).String() + " (" + why + ")"
+	}
+}
+
+func (c *ctx) writeEvent(targets rset, kind uint8, pos token.Pos, why string) {
+	if len(targets) == 0 {
+		return
+	}
+	c.resolveRoots(targets, false, func(r root) {
+		switch r.k {
+		case 'G':
+			if c.exempt {
+				return
+			}
+			if kind&kindD != 0 {
+				c.report(c.a.mutated, r.s, pos, why)
+			}
+			if kind&kindM != 0 {
+				c.report(c.a.mcalled, r.s, pos, why)
+			}
+		case 'P', 'Q':
+			wk := wkey{param: r.i, level: 1}
+			if r.k == 'Q' {
+				wk.level, wk.field = 2, r.f
+			}
+			if c.fn.W[wk]|kind != c.fn.W[wk] {
+				c.fn.W[wk] |= kind
+				c.a.changed = true
+			}
+		}
+	})
+}
+
+// escapeEvent: pointers into the given roots are stored where the analysis does not follow them.
+func (c *ctx) escapeEvent(v val, pos token.Pos, why string) {
+	if c.exempt {
+		return
+	}
+	c.resolveRoots(c.a.reachAll(v), true, func(r root) {
+		if r.k == 'G' {
+			c.report(c.a.mutated, r.s+"(&)", pos, why)
+		}
+	})
+}
+
+// bases: the local variables an expression is computed from.
+func (c *ctx) bases(e ast.Expr, out map[types.Object]bool) {
+	switch x := e.(type) {
+	case *ast.Ident:
+		if v, ok := c.objOf(x).(*types.Var); ok && !v.IsField() {
+			if _, g := globalName(v); !g && inLibrary(v.Pkg()) {
+				out[v] = true
+			}
+		}
+	case *ast.ParenExpr:
+		c.bases(x.X, out)
+	case *ast.SelectorExpr:
+		if c.p.info.Selections[x] != nil {
+			c.bases(x.X, out)
+		}
+	case *ast.IndexExpr:
+		c.bases(x.X, out)
+	case *ast.SliceExpr:
+		c.bases(x.X, out)
+	case *ast.StarExpr:
+		c.bases(x.X, out)
+	case *ast.UnaryExpr:
+		c.bases(x.X, out)
+	case *ast.TypeAssertExpr:
+		c.bases(x.X, out)
+	case *ast.CallExpr:
+		c.bases(x.Fun, out)
+		for _, ae := range x.Args {
+			c.bases(ae, out)
+		}
+	case *ast.CompositeLit:
+		for _, el := range x.Elts {
+			if kv, ok := el.(*ast.KeyValueExpr); ok {
+				el = kv.Value
+			}
+			c.bases(el, out)
+		}
+	}
+}
+
+func (c *ctx) lastField(e ast.Expr) *types.Var {
+	if s, ok := unparen(e).(*ast.SelectorExpr); ok {
+		if sel := c.p.info.Selections[s]; sel != nil && sel.Kind() == types.FieldVal {
+			f, _ := sel.Obj().(*types.Var)
+			return f
+		}
+	}
+	return nil
+}
+
+// store: the pointer-carrying value rhs is written into the memory pv points to; path is the
+// expression the location was computed from (isLoc: path denotes the location itself, else a
+// pointer to it).
+func (c *ctx) store(pv val, path ast.Expr, isLoc bool, rhs val, pos token.Pos) {
+	a := c.a
+	nonLocal := false
+	for r := range pv.d {
+		switch r.k {
+		case 'L':
+			if obj := a.lobj[r.s]; obj != nil {
+				a.merge(a.lval(obj), rhs)
+			}
+		case 'G':
+			ga := a.GA[r.s]
+			if ga == nil {
+				nv := newVal()
+				ga = &nv
+				a.GA[r.s] = ga
+			}
+			a.merge(ga, a.flatten(rhs))
+		default:
+			nonLocal = true
+		}
+	}
+	var f *types.Var
+	if isLoc {
+		f = c.lastField(path)
+	}
+	if f != nil {
+		fk := c.fieldKey(f)
+		fa := a.FA[fk]
+		if fa == nil {
+			nv := newVal()
+			fa = &nv
+			a.FA[fk] = fa
+		}
+		a.merge(fa, a.flatten(rhs))
+	} else if nonLocal {
+		c.escapeEvent(rhs, pos, "stored into memory reachable from a parameter")
+	}
+	// contents of anonymous (freshly allocated) memory are remembered in the variables the
+	// location was computed from; field stores are already covered by the field cell
+	if _, plain := unparen(path).(*ast.Ident); f == nil && (!plain || !isLoc) {
+		bs := map[types.Object]bool{}
+		c.bases(path, bs)
+		// everything the base variables were derived from can reach that memory too
+		var work []types.Object
+		for b := range bs {
+			work = append(work, b)
+		}
+		for len(work) > 0 {
+			b := work[len(work)-1]
+			work = work[:len(work)-1]
+			for d := range a.derived[b] {
+				if !bs[d] {
+					bs[d] = true
+					work = append(work, d)
+				}
+			}
+		}
+		content := val{rset{}, rhs.all()}
+		for b := range bs {
+			a.merge(a.lval(b), content)
+		}
+	}
+}
+
+// assign: lhs = <value rhs> (rhsExpr may be nil)
+func (c *ctx) assign(lhs ast.Expr, rhs val, rhsExpr ast.Expr, pos token.Pos) {
+	if id, ok := unparen(lhs).(*ast.Ident); ok {
+		if id.Name == "_" || c.objOf(id) == nil {
+			return
+		}
+		if v, ok := c.objOf(id).(*types.Var); ok && rhsExpr != nil {
+			if _, g := globalName(v); !g {
+				bs := map[types.Object]bool{}
+				c.bases(rhsExpr, bs)
+				delete(bs, v)
+				if len(bs) > 0 {
+					if c.a.derived[v] == nil {
+						c.a.derived[v] = map[types.Object]bool{}
+					}
+					for b := range bs {
+						c.a.derived[v][b] = true
+					}
+				}
+			}
+		}
+	}
+	pv := c.addrOf(lhs)
+	c.writeEvent(pv.d, kindD, pos, "assignment")
+	if t := c.typeOf(lhs); t != nil && !hasPtr(t) {
+		return
+	}
+	if rhs.empty() {
+		return
+	}
+	c.store(pv, lhs, true, rhs, pos)
+}
+
+func (c *ctx) assignList(lhs []ast.Expr, rhs []ast.Expr, pos token.Pos) {
+	if len(lhs) == len(rhs) {
+		for i := range lhs {
+			c.assign(lhs[i], c.eval(rhs[i]), rhs[i], pos)
+		}
+		return
+	}
+	if len(rhs) != 1 {
+		return
+	}
+	if call, ok := unparen(rhs[0]).(*ast.CallExpr); ok {
+		rs := c.evalCall(call)
+		for i := range lhs {
+			if i < len(rs) {
+				c.assign(lhs[i], rs[i], rhs[0], pos)
+			}
+		}
+		return
+	}
+	c.assign(lhs[0], c.eval(rhs[0]), rhs[0], pos) // v, ok := m[k] / <-ch / x.(T)
+}
+
+// walk generates the events of all statements and expressions below n.
+func (c *ctx) walk(root ast.Node) {
+	var stack []ast.Node
+	info := c.p.info
+	callFuns := map[ast.Expr]bool{}
+	ast.Inspect(root, func(n ast.Node) bool {
+		if n == nil {
+			stack = stack[:len(stack)-1]
+			return true
+		}
+		inLit := false
+		for _, s := range stack {
+			if _, ok := s.(*ast.FuncLit); ok {
+				inLit = true
+			}
+		}
+		stack = append(stack, n)
+		switch x := n.(type) {
+		case *ast.AssignStmt:
+			if x.Tok == token.ASSIGN || x.Tok == token.DEFINE {
+				c.assignList(x.Lhs, x.Rhs, x.Pos())
+			} else {
+				for _, l := range x.Lhs {
+					c.writeEvent(c.addrOf(l).d, kindD, x.Pos(), "op-assignment")
+				}
+			}
+		case *ast.IncDecStmt:
+			c.writeEvent(c.addrOf(x.X).d, kindD, x.Pos(), "inc/dec")
+		case *ast.ValueSpec:
+			if len(x.Values) > 0 {
+				lhs := make([]ast.Expr, len(x.Names))
+				for i, nm := range x.Names {
+					lhs[i] = nm
+				}
+				c.assignList(lhs, x.Values, x.Pos())
+			}
+		case *ast.RangeStmt:
+			xt := c.typeOf(x.X)
+			if xt == nil {
+				break
+			}
+			xv := c.eval(x.X)
+			var kv, ev val
+			switch u := xt.Underlying().(type) {
+			case *types.Array:
+				ev = xv
+			case *types.Slice, *types.Chan:
+				ev = c.a.deref(xv)
+			case *types.Map:
+				ev = c.a.deref(xv)
+				kv = ev
+			case *types.Pointer:
+				_ = u
+				ev = c.a.deref(xv)
+			default:
+				ev = newVal()
+			}
+			if _, isChan := xt.Underlying().(*types.Chan); isChan {
+				kv = ev // the single iteration variable of a channel range is the element
+			}
+			if kv.d == nil {
+				kv = newVal()
+			}
+			for i, le := range []ast.Expr{x.Key, x.Value} {
+				if le == nil {
+					continue
+				}
+				v := kv
+				if i == 1 {
+					v = ev
+				}
+				if t := c.typeOf(le); t != nil && !hasPtr(t) {
+					v = newVal()
+				}
+				c.assign(le, v, x.X, x.Pos())
+			}
+		case *ast.SendStmt:
+			pv := c.eval(x.Chan)
+			c.writeEvent(pv.d, kindD, x.Pos(), "channel send")
+			if v := c.eval(x.Value); !v.empty() {
+				c.store(pv, x.Chan, false, v, x.Pos())
+			}
+		case *ast.ReturnStmt:
+			if inLit || c.fn == nil {
+				break
+			}
+			fn := c.fn
+			if len(x.Results) == 0 {
+				for i, ro := range fn.results {
+					if ro != nil && i < len(fn.R) && hasPtr(ro.Type()) {
+						c.a.merge(fn.R[i], c.a.flatten(*c.a.lval(ro)))
+					}
+				}
+			} else if len(x.Results) == len(fn.R) {
+				for i, re := range x.Results {
+					c.a.merge(fn.R[i], c.a.flatten(c.eval(re)))
+				}
+			} else if len(x.Results) == 1 {
+				if call, ok := unparen(x.Results[0]).(*ast.CallExpr); ok {
+					for i, v := range c.evalCall(call) {
+						if i < len(fn.R) {
+							c.a.merge(fn.R[i], c.a.flatten(v))
+						}
+					}
+				}
+			}
+		case *ast.CallExpr:
+			callFuns[unparen(x.Fun)] = true
+			c.callEvent(x)
+		case *ast.SelectorExpr:
+			// a method value x.m that is not called on the spot: its later calls go through a
+			// function value, so the receiver effects are accounted for here
+			if sel := info.Selections[x]; sel != nil && sel.Kind() == types.MethodVal && !callFuns[x] {
+				c.callEvent(&ast.CallExpr{Fun: x, Lparen: x.End(), Rparen: x.End()})
+			}
+		case *ast.CompositeLit:
+			t := c.typeOf(x)
+			if t == nil {
+				break
+			}
+			t, _ = deptr(t)
+			st, ok := t.Underlying().(*types.Struct)
+			if !ok {
+				break
+			}
+			for i, el := range x.Elts {
+				var f *types.Var
+				if kv, ok := el.(*ast.KeyValueExpr); ok {
+					if id, ok := kv.Key.(*ast.Ident); ok {
+						f, _ = info.Uses[id].(*types.Var)
+					}
+					el = kv.Value
+				} else if i < st.NumFields() {
+					f = st.Field(i)
+				}
+				if f == nil || !hasPtr(f.Type()) {
+					continue
+				}
+				if v := c.eval(el); !v.empty() {
+					fk := c.fieldKey(f)
+					fa := c.a.FA[fk]
+					if fa == nil {
+						nv := newVal()
+						fa = &nv
+						c.a.FA[fk] = fa
+					}
+					c.a.merge(fa, c.a.flatten(v))
+				}
+			}
+		case *ast.TypeSwitchStmt:
+			as, ok := x.Assign.(*ast.AssignStmt)
+			if !ok || len(as.Rhs) != 1 {
+				break
+			}
+			v := c.eval(as.Rhs[0])
+			if v.empty() {
+				break
+			}
+			for _, cc := range x.Body.List {
+				if obj := info.Implicits[cc]; obj != nil && hasPtr(obj.Type()) {
+					c.a.merge(c.a.lval(obj), v)
+				}
+			}
+		}
+		return true
+	})
+}
+
+// ---- driver ----------------------------------------------------------------
+
+func mayWriteAnalysis(fset *token.FileSet, pkgs []*pkgInfo) (mutated, methodCalled []string) {
+	a := &analysis{fset: fset, fns: map[string]*fnInfo{}, local: map[types.Object]*val{}, lobj: map[string]types.Object{},
+		derived: map[types.Object]map[types.Object]bool{}, FA: map[string]*val{}, GA: map[string]*val{}, PA: map[root]*val{},
+		mutated: map[string]string{}, mcalled: map[string]string{}, debug: os.Getenv("GOSYNC_DEBUG") != ""}
+	for _, p := range pkgs {
+		for _, f := range p.files {
+			for _, decl := range f.Decls {
+				fd, ok := decl.(*ast.FuncDecl)
+				if !ok || fd.Body == nil {
+					continue
+				}
+				obj, _ := p.info.Defs[fd.Name].(*types.Func)
+				if obj == nil {
+					continue
+				}
+				sig := obj.Type().(*types.Signature)
+				fn := &fnInfo{key: a.posKey(obj.Pos()), qual: shortPkg(p.path) + "." + fd.Name.Name, decl: fd, p: p,
+					W: map[wkey]uint8{}, variadic: sig.Variadic(), exempt: fd.Name.Name == "init" && fd.Recv == nil}
+				addFields := func(fl *ast.FieldList, dst *[]types.Object) {
+					if fl == nil {
+						return
+					}
+					for _, fld := range fl.List {
+						if len(fld.Names) == 0 {
+							*dst = append(*dst, nil)
+						}
+						for _, nm := range fld.Names {
+							*dst = append(*dst, p.info.Defs[nm]) // nil for "_"
+						}
+					}
+				}
+				if fd.Recv != nil {
+					fn.hasRecv = true
+					addFields(fd.Recv, &fn.params)
+					if len(fn.params) == 0 {
+						fn.params = append(fn.params, nil)
+					}
+				}
+				addFields(fd.Type.Params, &fn.params)
+				addFields(fd.Type.Results, &fn.results)
+				for i := 0; i < sig.Results().Len(); i++ {
+					nv := newVal()
+					fn.R = append(fn.R, &nv)
+				}
+				for i, po := range fn.params {
+					if po != nil && hasPtr(po.Type()) {
+						v := a.lval(po)
+						v.d.add(root{k: 'P', s: fn.key, i: i})
+						v.i.add(root{k: 'Q', s: fn.key, i: i})
+					}
+				}
+				a.fns[fn.key] = fn
+				a.order = append(a.order, fn)
+			}
+		}
+	}
+	for iter := 0; iter < 100; iter++ {
+		a.changed = false
+		for _, p := range pkgs {
+			c := &ctx{a: a, p: p, exempt: true}
+			for _, f := range p.files {
+				for _, decl := range f.Decls {
+					if gd, ok := decl.(*ast.GenDecl); ok && gd.Tok == token.VAR {
+						c.walk(gd) // package-level initialisers: aliasing only, no mutation reports
+					}
+				}
+			}
+		}
+		for _, fn := range a.order {
+			c := &ctx{a: a, p: fn.p, fn: fn, exempt: fn.exempt}
+			c.walk(fn.decl.Body)
+		}
+		if !a.changed {
+			break
+		}
+	}
+	if a.debug {
+		for _, fn := range a.order {
+			var ws []string
+			for wk, k := range fn.W {
+				ws = append(ws, fmt.Sprintf("p%d/L%d%s:%d", wk.param, wk.level, fieldTail(wk.field), k))
+			}
+			sort.Strings(ws)
+			var rs []string
+			for i, r := range fn.R {
+				if !r.empty() {
+					rs = append(rs, fmt.Sprintf("r%d=%s", i, fmtVal(*r)))
+				}
+			}
+			if len(ws)+len(rs) > 0 {
+				fmt.Fprintf(os.Stderr, "FN %s W=%v R=%v\n", fn.qual, ws, rs)
+			}
+		}
+		for n, w := range a.mutated {
+			fmt.Fprintf(os.Stderr, "MUTATED %s at %s\n", n, w)
+		}
+		for n, w := range a.mcalled {
+			fmt.Fprintf(os.Stderr, "METHOD_CALLED %s at %s\n", n, w)
+		}
+	}
+	for n := range a.mutated {
+		mutated = append(mutated, n)
+	}
+	for n := range a.mcalled {
+		methodCalled = append(methodCalled, n)
+	}
+	return
+}
+
+func fmtVal(v val) string {
+	f := func(s rset) string {
+		var l []string
+		for r := range s {
+			if r.k == 'G' {
+				l = append(l, r.s)
+			} else {
+				l = append(l, fmt.Sprintf("%c%d%s", r.k, r.i, fieldTail(r.f)))
+			}
+		}
+		sort.Strings(l)
+		return strings.Join(l, ",")
+	}
+	return "{" + f(v.d) + "|" + f(v.i) + "}"
+}
+
+func fieldTail(fk string) string {
+	if fk == "" {
+		return ""
+	}
+	return "." + filepath.Base(fk)
 }
